@@ -12,11 +12,13 @@ import (
 	"hash/fnv"
 	"os"
 	"os/exec"
+	"os/signal"
 	"path/filepath"
 	"sort"
 	"strconv"
 	"strings"
 	"sync"
+	"syscall"
 	"time"
 )
 
@@ -288,6 +290,24 @@ func parent(ck *Check, tier string, seed int64, procs int) int {
 	self, _ := os.Executable()
 	total := newResult()
 	var mu sync.Mutex
+	// an interrupted run (vp stop, timeout(1), ^C) leaves neither worker processes nor its scratch directory behind
+	var procMu sync.Mutex
+	var started []*exec.Cmd
+	sigc := make(chan os.Signal, 1)
+	signal.Notify(sigc, syscall.SIGINT, syscall.SIGTERM, syscall.SIGHUP)
+	go func() {
+		<-sigc
+		procMu.Lock()
+		for _, c := range started {
+			if c.Process != nil {
+				c.Process.Kill()
+			}
+		}
+		os.RemoveAll(tmp)
+		fmt.Println("INCONCLUSIVE interrupted by a signal")
+		os.Exit(3)
+	}()
+	defer signal.Stop(sigc)
 	var wg sync.WaitGroup
 	watchdog := 50 * time.Minute
 	if tier == "quick" {
@@ -304,7 +324,10 @@ func parent(ck *Check, tier string, seed int64, procs int) int {
 			lf, _ := os.Create(logf)
 			cmd.Stdout, cmd.Stderr = lf, lf
 			done := make(chan error, 1)
+			procMu.Lock()
 			cmd.Start()
+			started = append(started, cmd)
+			procMu.Unlock()
 			go func() { done <- cmd.Wait() }()
 			var werr error
 			timedOut := false
